@@ -94,20 +94,20 @@ def main():
     res['confirmed'] = bool(res.get('compiles') and res.get('tests', [False])[0] and res['demo_pristine'][0] == 0
                             and res.get('demo_mutant', [0])[0] not in (0, None))
     # ---- static checks against /repo with the patch applied
-    st = sh('git -C /repo status --porcelain --untracked-files=no')[1].strip()
-    if st:
-        raise SystemExit('/repo has uncommitted changes: ' + st)
-    sh('git -C /repo apply %s' % patch)
+    # static checks on a scratch copy of /repo's sources with the patch applied (the checks only read src/, include/ and
+    # CMakeLists.txt; /repo itself is never modified, so several seeds can be examined at once)
+    import tempfile
+    root = tempfile.mkdtemp(prefix='lpv-seed-', dir=os.environ.get('TMPDIR') or '/var/tmp')
     checks = {}
     try:
+        sh('%s/tools/mkroot.sh %s %s' % (VERIF, patch, root))
         todo = built_props() if '--all' in sys.argv else [prop]
         for p in todo:
-            c, o = sh('python3-vt lpv.py check %s --no-write' % p, cwd=VERIF)
-            lines = [l for l in o.splitlines() if l.startswith(('VIOLATION', 'ANALYSIS-BROKEN')) or (l[:3] == p and '.' in l[:6])]
+            c, o = sh('python3-vt lpv.py check %s --root %s --no-write' % (p, root), cwd=VERIF)
+            lines = [l.replace(root, '') for l in o.splitlines() if l.startswith(('VIOLATION', 'ANALYSIS-BROKEN')) or (l[:3] == p and '.' in l[:6] and ' holds' not in l)]
             checks[p] = {'exit': c, 'lines': [l[:300] for l in lines[:8]]}
     finally:
-        sh('git -C /repo checkout -q -- .')
-        sh('git -C /repo clean -fdq -e _build -e tests/log.txt')
+        shutil.rmtree(root, ignore_errors=True)
     res['checks'] = checks
     res['detected_by'] = sorted(p for p, v in checks.items() if v['exit'] == 1)
     res['broken_in'] = sorted(p for p, v in checks.items() if v['exit'] == 2)
@@ -121,7 +121,7 @@ def main():
         meta = {'property': prop, 'confirmed': res['confirmed'],
                 'needs_to_manifest': open(seed + '/notes.md').read()[:1500] if os.path.exists(seed + '/notes.md') else '',
                 'what_i_ran': 'tools/seedcheck.py: scratch worktree /tmp/wt-eval of /repo HEAD %s: pristine build + demo (exit %s), patch applied, '
-                              'cmake --build, ctest (%s), demo (exit %s); then patch applied to /repo, quick checks run, git checkout -- .'
+                              'cmake --build, ctest (%s), demo (exit %s); then the quick check(s) run on a scratch copy of /repo sources with the patch applied'
                               % (sh('git -C /repo rev-parse --short HEAD')[1].strip(), res['demo_pristine'][0], res.get('tests', ['', ''])[1],
                                  res.get('demo_mutant', [None])[0]),
                 'checks': checks, 'detected_by': res['detected_by'], 'date': time.strftime('%Y-%m-%d')}
